@@ -424,7 +424,7 @@ impl Check for C07 {
             "tiny" => {
                 // every text of 0..=3 characters over a small alphabet: streams of one
                 // or two code units, a lone byte order mark, a lone newline
-                let alphabet = ['1', 'a', '~', '-', ' ', '\n', '[', ']', '"', '\u{e9}', '\u{20ac}', '\u{1f600}'];
+                let alphabet = ['1', 'a', '~', '-', ' ', '\n', '[', ']', '"', '\u{e9}', '\u{20ac}', '\u{1f600}', '\u{feff}'];
                 let mut texts: Vec<String> = vec![String::new()];
                 for len in 1..=3usize {
                     let mut idx = vec![0usize; len];
